@@ -917,27 +917,66 @@ static int hl_botp_ocra(size_t np, const size_t* p)
 
 /* ---------------------------------------------------------------- bels */
 
-/* bels-m seed len id_len */
-static int hl_bels_m(size_t np, const size_t* p)
+/* bels-std seed len : all 17 standard keys into exact buffers */
+static int hl_bels_std(size_t np, const size_t* p)
 {
-	size_t len = p[1], idl = p[2], num;
-	octet *m, *m0, *mi, *id;
-	void* ang;
+	size_t len = p[1], num;
 	hl_seed(p[0]);
 	for (num = 0; num <= 16; ++num)
 	{
-		m = hl_m(len);
+		octet* m = hl_m(len);
 		HL_E(belsStdM(m, len, num), "belsStdM");
-		HL_E(belsValM(m, len), "belsValM");
+		HL_T((m[0] | m[1] | m[2] | m[3]) != 0, "belsStdM-zero");
 	}
-	ang = hl_combo();
-	m0 = hl_m(len), mi = hl_m(len), id = hl_r(idl);
-	HL_E(belsGenM0(m0, len, prngCOMBOStepR, ang), "belsGenM0");
-	HL_E(belsValM(m0, len), "belsValM-m0");
-	HL_E(belsGenMi(mi, len, m0, prngCOMBOStepR, ang), "belsGenMi");
-	HL_E(belsValM(mi, len), "belsValM-mi");
+	return 0;
+}
+
+/* bels-val seed len num : belsValM on a standard key */
+static int hl_bels_val(size_t np, const size_t* p)
+{
+	size_t len = p[1];
+	octet* m;
+	hl_seed(p[0]);
+	m = hl_m(len);
+	HL_E(belsStdM(m, len, p[2]), "belsStdM");
+	HL_E(belsValM(m, len), "belsValM");
+	return 0;
+}
+
+/* bels-genm0 seed len rng(0: COMBO, 1: brngCTR) */
+static int hl_bels_genm0(size_t np, const size_t* p)
+{
+	size_t len = p[1];
+	octet* m0;
+	hl_seed(p[0]);
+	m0 = hl_m(len);
+	HL_E(belsGenM0(m0, len, p[2] ? brngCTRStepR : prngCOMBOStepR, p[2] ? hl_ctr() : hl_combo()), "belsGenM0");
+	return 0;
+}
+
+/* bels-genmi seed len rng */
+static int hl_bels_genmi(size_t np, const size_t* p)
+{
+	size_t len = p[1];
+	octet *m0, *mi;
+	hl_seed(p[0]);
+	m0 = hl_m(len), mi = hl_m(len);
+	HL_E(belsStdM(m0, len, 0), "belsStdM");
+	HL_E(belsGenMi(mi, len, m0, p[2] ? brngCTRStepR : prngCOMBOStepR, p[2] ? hl_ctr() : hl_combo()), "belsGenMi");
+	return 0;
+}
+
+/* bels-genmid seed len id_len */
+static int hl_bels_genmid(size_t np, const size_t* p)
+{
+	size_t len = p[1], idl = p[2];
+	octet *m0, *mi, *mi2, *id;
+	hl_seed(p[0]);
+	m0 = hl_m(len), mi = hl_m(len), mi2 = hl_m(len), id = hl_r(idl);
+	HL_E(belsStdM(m0, len, 0), "belsStdM");
 	HL_E(belsGenMid(mi, len, m0, id, idl), "belsGenMid");
-	HL_E(belsValM(mi, len), "belsValM-mid");
+	HL_E(belsGenMid(mi2, len, m0, id, idl), "belsGenMid-2");
+	HL_EQ(mi, mi2, len, "genmid-det");
 	return 0;
 }
 
@@ -994,7 +1033,366 @@ static int hl_bels_share(size_t np, const size_t* p)
 	return 0;
 }
 
-/*HL_PART3*/
+/* ---------------------------------------------------------------- bign */
+
+static const char* hl_bign_name(size_t l)
+{
+	return l == 128 ? "1.2.112.0.2.0.34.101.45.3.1" :
+		l == 192 ? "1.2.112.0.2.0.34.101.45.3.2" :
+		l == 256 ? "1.2.112.0.2.0.34.101.45.3.3" : 0;
+}
+static const char* hl_hash_oid(size_t l)
+{
+	return l == 128 ? "1.2.112.0.2.0.34.101.31.81" :
+		l == 192 ? "1.2.112.0.2.0.34.101.77.12" : "1.2.112.0.2.0.34.101.77.13";
+}
+/* standard parameters in an exact sizeof(bign_params) block, name in an exact string */
+static bign_params* hl_bign_params(size_t l)
+{
+	bign_params* params;
+	if (!hl_bign_name(l)) return 0;
+	params = (bign_params*)hl_m(sizeof(bign_params));
+	if (bignParamsStd(params, hl_str(hl_bign_name(l))) != ERR_OK) return 0;
+	return params;
+}
+/* DER code of an OID in an exact buffer */
+static octet* hl_oid_der(size_t* len, const char* oid)
+{
+	octet* der;
+	char* s = hl_str(oid);
+	*len = 0;
+	if (bignOidToDER(0, len, s) != ERR_OK) return 0;
+	der = hl_m(*len);
+	if (bignOidToDER(der, len, s) != ERR_OK) return 0;
+	return der;
+}
+static gen_i hl_rng_fn(size_t k) { return k ? brngCTRStepR : prngCOMBOStepR; }
+static void* hl_rng_st(size_t k) { return k ? hl_ctr() : hl_combo(); }
+
+/* bign-params seed l */
+static int hl_bign_pars(size_t np, const size_t* p)
+{
+	size_t l = p[1], count = 0, count1;
+	bign_params *params, *params1;
+	octet* der;
+	hl_seed(p[0]);
+	params = hl_bign_params(l);
+	HL_T(params != 0, "bignParamsStd");
+	HL_T(params->l == l, "bignParamsStd-l");
+	HL_E(bignParamsVal(params), "bignParamsVal");
+	HL_E(bignParamsEnc(0, &count, params), "bignParamsEnc-len");
+	der = hl_m(count);
+	count1 = count;
+	HL_E(bignParamsEnc(der, &count1, params), "bignParamsEnc");
+	HL_T(count1 == count, "bignParamsEnc-count");
+	params1 = (bign_params*)hl_m(sizeof(bign_params));
+	HL_E(bignParamsDec(params1, der, count), "bignParamsDec");
+	HL_T(params1->l == l, "bignParamsDec-l");
+	HL_EQ(params->p, params1->p, l / 4, "bignParamsDec-p");
+	HL_EQ(params->a, params1->a, l / 4, "bignParamsDec-a");
+	HL_EQ(params->b, params1->b, l / 4, "bignParamsDec-b");
+	HL_EQ(params->q, params1->q, l / 4, "bignParamsDec-q");
+	HL_EQ(params->yG, params1->yG, l / 4, "bignParamsDec-yG");
+	HL_EQ(params->seed, params1->seed, 8, "bignParamsDec-seed");
+	return 0;
+}
+
+/* bign-keys seed l rng key_len */
+static int hl_bign_keys(size_t np, const size_t* p)
+{
+	size_t l = p[1], kl = p[3];
+	bign_params* params;
+	octet *da, *qa, *db, *qb, *q1, *k1, *k2;
+	gen_i rng = hl_rng_fn(p[2]);
+	void* rs;
+	hl_seed(p[0]);
+	rs = hl_rng_st(p[2]);
+	params = hl_bign_params(l);
+	HL_T(params != 0, "bignParamsStd");
+	da = hl_m(l / 4), qa = hl_m(l / 2), db = hl_m(l / 4), qb = hl_m(l / 2);
+	HL_E(bignKeypairGen(da, qa, params, rng, rs), "bignKeypairGen");
+	HL_E(bignKeypairGen(db, qb, params, rng, rs), "bignKeypairGen-2");
+	HL_E(bignKeypairVal(params, da, qa), "bignKeypairVal");
+	HL_E(bignPubkeyVal(params, qb), "bignPubkeyVal");
+	q1 = hl_m(l / 2);
+	HL_E(bignPubkeyCalc(q1, params, da), "bignPubkeyCalc");
+	HL_EQ(q1, qa, l / 2, "pubkey-calc");
+	k1 = hl_m(kl), k2 = hl_m(kl);
+	HL_E(bignDH(k1, params, da, qb, kl), "bignDH");
+	HL_E(bignDH(k2, params, db, qa, kl), "bignDH-2");
+	HL_EQ(k1, k2, kl, "dh-agree");
+	return 0;
+}
+
+/* bign-sign seed l rng t_len(0: t == NULL) */
+static int hl_bign_sign(size_t np, const size_t* p)
+{
+	size_t l = p[1], tl = p[3], ol;
+	bign_params* params;
+	octet *d, *q, *h, *sig, *sig2, *sig3, *oid, *t;
+	gen_i rng = hl_rng_fn(p[2]);
+	void* rs;
+	hl_seed(p[0]);
+	rs = hl_rng_st(p[2]);
+	params = hl_bign_params(l);
+	HL_T(params != 0, "bignParamsStd");
+	oid = hl_oid_der(&ol, hl_hash_oid(l));
+	HL_T(oid != 0, "bignOidToDER");
+	d = hl_m(l / 4), q = hl_m(l / 2), h = hl_r(l / 4);
+	sig = hl_m(3 * l / 8), sig2 = hl_m(3 * l / 8), sig3 = hl_m(3 * l / 8);
+	t = tl ? hl_r(tl) : 0;
+	HL_E(bignKeypairGen(d, q, params, rng, rs), "bignKeypairGen");
+	HL_E(bignSign(sig, params, oid, ol, h, d, rng, rs), "bignSign");
+	HL_E(bignVerify(params, oid, ol, h, sig, q), "bignVerify");
+	HL_E(bignSign2(sig2, params, oid, ol, h, d, t, tl), "bignSign2");
+	HL_E(bignVerify(params, oid, ol, h, sig2, q), "bignVerify-2");
+	HL_E(bignSign2(sig3, params, oid, ol, h, d, t, tl), "bignSign2-2");
+	HL_EQ(sig2, sig3, 3 * l / 8, "sign2-det");
+	sig[0] ^= 1;
+	HL_T(bignVerify(params, oid, ol, h, sig, q) == ERR_BAD_SIG, "bignVerify-bad");
+	return 0;
+}
+
+/* bign-kwrap seed l rng len hdr(0: NULL) ; len >= 16 */
+static int hl_bign_kwrap(size_t np, const size_t* p)
+{
+	size_t l = p[1], len = p[3];
+	bign_params* params;
+	octet *d, *q, *key, *key1, *hdr, *token;
+	gen_i rng = hl_rng_fn(p[2]);
+	void* rs;
+	hl_seed(p[0]);
+	rs = hl_rng_st(p[2]);
+	params = hl_bign_params(l);
+	HL_T(params != 0, "bignParamsStd");
+	d = hl_m(l / 4), q = hl_m(l / 2), key = hl_r(len), key1 = hl_m(len);
+	hdr = p[4] ? hl_r(16) : 0;
+	token = hl_m(l / 4 + 16 + len);
+	HL_E(bignKeypairGen(d, q, params, rng, rs), "bignKeypairGen");
+	HL_E(bignKeyWrap(token, params, key, len, hdr, q, rng, rs), "bignKeyWrap");
+	HL_E(bignKeyUnwrap(key1, params, token, l / 4 + 16 + len, hdr, d), "bignKeyUnwrap");
+	HL_EQ(key, key1, len, "kwrap-roundtrip");
+	return 0;
+}
+
+/* bign-id seed l rng t_len */
+static int hl_bign_id(size_t np, const size_t* p)
+{
+	size_t l = p[1], tl = p[3], ol;
+	bign_params* params;
+	octet *d, *q, *idh, *h, *sig, *idd, *idq, *ids, *ids2, *oid, *t;
+	gen_i rng = hl_rng_fn(p[2]);
+	void* rs;
+	hl_seed(p[0]);
+	rs = hl_rng_st(p[2]);
+	params = hl_bign_params(l);
+	HL_T(params != 0, "bignParamsStd");
+	oid = hl_oid_der(&ol, hl_hash_oid(l));
+	HL_T(oid != 0, "bignOidToDER");
+	d = hl_m(l / 4), q = hl_m(l / 2), idh = hl_r(l / 4), h = hl_r(l / 4);
+	sig = hl_m(3 * l / 8), idd = hl_m(l / 4), idq = hl_m(l / 2);
+	ids = hl_m(3 * l / 8), ids2 = hl_m(3 * l / 8);
+	t = tl ? hl_r(tl) : 0;
+	HL_E(bignKeypairGen(d, q, params, rng, rs), "bignKeypairGen");
+	HL_E(bignSign(sig, params, oid, ol, idh, d, rng, rs), "bignSign");
+	HL_E(bignIdExtract(idd, idq, params, oid, ol, idh, sig, q), "bignIdExtract");
+	HL_E(bignIdSign(ids, params, oid, ol, idh, h, idd, rng, rs), "bignIdSign");
+	HL_E(bignIdVerify(params, oid, ol, idh, h, ids, idq, q), "bignIdVerify");
+	HL_E(bignIdSign2(ids2, params, oid, ol, idh, h, idd, t, tl), "bignIdSign2");
+	HL_E(bignIdVerify(params, oid, ol, idh, h, ids2, idq, q), "bignIdVerify-2");
+	return 0;
+}
+
+/* bign96 seed rng t_len */
+static int hl_bign96(size_t np, const size_t* p)
+{
+	size_t tl = p[2], ol;
+	bign_params* params;
+	octet *d, *q, *q1, *h, *sig, *sig2, *oid, *t;
+	gen_i rng = hl_rng_fn(p[1]);
+	void* rs;
+	hl_seed(p[0]);
+	rs = hl_rng_st(p[1]);
+	params = (bign_params*)hl_m(sizeof(bign_params));
+	HL_E(bign96ParamsStd(params, hl_str("1.2.112.0.2.0.34.101.45.3.0")), "bign96ParamsStd");
+	HL_E(bign96ParamsVal(params), "bign96ParamsVal");
+	oid = hl_oid_der(&ol, "1.2.112.0.2.0.34.101.31.81");
+	HL_T(oid != 0, "bignOidToDER");
+	d = hl_m(24), q = hl_m(48), q1 = hl_m(48), h = hl_r(24), sig = hl_m(34), sig2 = hl_m(34);
+	t = tl ? hl_r(tl) : 0;
+	HL_E(bign96KeypairGen(d, q, params, rng, rs), "bign96KeypairGen");
+	HL_E(bign96KeypairVal(params, d, q), "bign96KeypairVal");
+	HL_E(bign96PubkeyVal(params, q), "bign96PubkeyVal");
+	HL_E(bign96PubkeyCalc(q1, params, d), "bign96PubkeyCalc");
+	HL_EQ(q, q1, 48, "bign96-pubkey");
+	HL_E(bign96Sign(sig, params, oid, ol, h, d, rng, rs), "bign96Sign");
+	HL_E(bign96Verify(params, oid, ol, h, sig, q), "bign96Verify");
+	HL_E(bign96Sign2(sig2, params, oid, ol, h, d, t, tl), "bign96Sign2");
+	HL_E(bign96Verify(params, oid, ol, h, sig2, q), "bign96Verify-2");
+	return 0;
+}
+
+/* ---------------------------------------------------------------- bake */
+
+/* certificate = prefix || pubkey ; the callback extracts the trailing l/2 octets */
+static err_t hl_certval(octet* pubkey, const bign_params* params, const octet* data, size_t len)
+{
+	if (len < params->l / 2) return ERR_BAD_CERT;
+	if (pubkey) memcpy(pubkey, data + (len - params->l / 2), params->l / 2);
+	return ERR_OK;
+}
+static bake_cert* hl_cert(const octet* pubkey, size_t l, size_t prefix)
+{
+	bake_cert* c = (bake_cert*)hl_m(sizeof(bake_cert));
+	c->data = hl_r(prefix + l / 2);
+	memcpy(c->data + prefix, pubkey, l / 2);
+	c->len = prefix + l / 2;
+	c->val = hl_certval;
+	return c;
+}
+static bake_settings* hl_settings(size_t kca, size_t kcb, const void* ha, size_t hal,
+	const void* hb, size_t hbl, size_t rng)
+{
+	bake_settings* s = (bake_settings*)hl_m(sizeof(bake_settings));
+	memset(s, 0, sizeof(bake_settings));
+	s->kca = kca ? TRUE : FALSE, s->kcb = kcb ? TRUE : FALSE;
+	s->helloa = ha, s->helloa_len = hal;
+	s->hellob = hb, s->hellob_len = hbl;
+	s->rng = hl_rng_fn(rng), s->rng_state = hl_rng_st(rng);
+	return s;
+}
+
+/* bake-kdf seed secret_len iv_len num */
+static int hl_bake_kdf(size_t np, const size_t* p)
+{
+	octet *secret, *iv, *k1, *k2;
+	hl_seed(p[0]);
+	secret = hl_r(p[1]), iv = hl_r(p[2]), k1 = hl_m(32), k2 = hl_m(32);
+	HL_E(bakeKDF(k1, secret, p[1], iv, p[2], p[3]), "bakeKDF");
+	HL_E(bakeKDF(k2, secret, p[1], iv, p[2], p[3]), "bakeKDF-2");
+	HL_EQ(k1, k2, 32, "kdf-det");
+	return 0;
+}
+
+/* bake-swu seed l */
+static int hl_bake_swu(size_t np, const size_t* p)
+{
+	size_t l = p[1];
+	bign_params* params;
+	octet *msg, *pt;
+	hl_seed(p[0]);
+	params = hl_bign_params(l);
+	HL_T(params != 0, "bignParamsStd");
+	msg = hl_r(l / 4), pt = hl_m(l / 2);
+	HL_E(bakeSWU(pt, params, msg), "bakeSWU");
+	HL_E(bignPubkeyVal(params, pt), "swu-on-curve");
+	return 0;
+}
+
+/* bake-bmqv seed l kca kcb hello_len(0: NULL hellos) prefix rng */
+static int hl_bake_bmqv(size_t np, const size_t* p)
+{
+	size_t l = p[1], kca = p[2], kcb = p[3], hl = p[4], pre = p[5];
+	bign_params* params;
+	octet *da, *qa, *db, *qb, *ha, *hb, *m1, *m2, *m3, *ka, *kb;
+	bake_cert *certa, *certb;
+	bake_settings *sa, *sb;
+	void *sta, *stb;
+	hl_seed(p[0]);
+	params = hl_bign_params(l);
+	HL_T(params != 0, "bignParamsStd");
+	ha = hl ? hl_r(hl) : 0, hb = hl ? hl_r(hl + 1) : 0;
+	sa = hl_settings(kca, kcb, ha, hl, hb, hl ? hl + 1 : 0, p[6]);
+	sb = hl_settings(kca, kcb, ha, hl, hb, hl ? hl + 1 : 0, p[6]);
+	da = hl_m(l / 4), qa = hl_m(l / 2), db = hl_m(l / 4), qb = hl_m(l / 2);
+	HL_E(bignKeypairGen(da, qa, params, sa->rng, sa->rng_state), "bignKeypairGen-a");
+	HL_E(bignKeypairGen(db, qb, params, sb->rng, sb->rng_state), "bignKeypairGen-b");
+	certa = hl_cert(qa, l, pre), certb = hl_cert(qb, l, pre + 3);
+	sta = hl_m(bakeBMQV_keep(l)), stb = hl_m(bakeBMQV_keep(l));
+	HL_E(bakeBMQVStart(sta, params, sa, da, certa), "bakeBMQVStart-a");
+	HL_E(bakeBMQVStart(stb, params, sb, db, certb), "bakeBMQVStart-b");
+	m1 = hl_m(l / 2), m2 = hl_m(l / 2 + (kca ? 8 : 0)), m3 = hl_m(kcb ? 8 : 0);
+	HL_E(bakeBMQVStep2(m1, stb), "bakeBMQVStep2");
+	HL_E(bakeBMQVStep3(m2, m1, certb, sta), "bakeBMQVStep3");
+	HL_E(bakeBMQVStep4(m3, m2, certa, stb), "bakeBMQVStep4");
+	if (kcb)
+		HL_E(bakeBMQVStep5(m3, sta), "bakeBMQVStep5");
+	ka = hl_m(32), kb = hl_m(32);
+	HL_E(bakeBMQVStepG(ka, sta), "bakeBMQVStepG-a");
+	HL_E(bakeBMQVStepG(kb, stb), "bakeBMQVStepG-b");
+	HL_EQ(ka, kb, 32, "bmqv-agree");
+	return 0;
+}
+
+/* bake-bsts seed l hello_len prefix_a prefix_b rng */
+static int hl_bake_bsts(size_t np, const size_t* p)
+{
+	size_t l = p[1], hl = p[2], prea = p[3], preb = p[4];
+	bign_params* params;
+	octet *da, *qa, *db, *qb, *ha, *hb, *m1, *m2, *m3, *ka, *kb;
+	bake_cert *certa, *certb;
+	bake_settings *sa, *sb;
+	void *sta, *stb;
+	hl_seed(p[0]);
+	params = hl_bign_params(l);
+	HL_T(params != 0, "bignParamsStd");
+	ha = hl ? hl_r(hl) : 0, hb = hl ? hl_r(hl + 1) : 0;
+	sa = hl_settings(1, 1, ha, hl, hb, hl ? hl + 1 : 0, p[5]);
+	sb = hl_settings(1, 1, ha, hl, hb, hl ? hl + 1 : 0, p[5]);
+	da = hl_m(l / 4), qa = hl_m(l / 2), db = hl_m(l / 4), qb = hl_m(l / 2);
+	HL_E(bignKeypairGen(da, qa, params, sa->rng, sa->rng_state), "bignKeypairGen-a");
+	HL_E(bignKeypairGen(db, qb, params, sb->rng, sb->rng_state), "bignKeypairGen-b");
+	certa = hl_cert(qa, l, prea), certb = hl_cert(qb, l, preb);
+	sta = hl_m(bakeBSTS_keep(l)), stb = hl_m(bakeBSTS_keep(l));
+	HL_E(bakeBSTSStart(sta, params, sa, da, certa), "bakeBSTSStart-a");
+	HL_E(bakeBSTSStart(stb, params, sb, db, certb), "bakeBSTSStart-b");
+	m1 = hl_m(l / 2);
+	m2 = hl_m(3 * l / 4 + certa->len + 8);
+	m3 = hl_m(l / 4 + certb->len + 8);
+	HL_E(bakeBSTSStep2(m1, stb), "bakeBSTSStep2");
+	HL_E(bakeBSTSStep3(m2, m1, sta), "bakeBSTSStep3");
+	HL_E(bakeBSTSStep4(m3, m2, 3 * l / 4 + certa->len + 8, hl_certval, stb), "bakeBSTSStep4");
+	HL_E(bakeBSTSStep5(m3, l / 4 + certb->len + 8, hl_certval, sta), "bakeBSTSStep5");
+	ka = hl_m(32), kb = hl_m(32);
+	HL_E(bakeBSTSStepG(ka, sta), "bakeBSTSStepG-a");
+	HL_E(bakeBSTSStepG(kb, stb), "bakeBSTSStepG-b");
+	HL_EQ(ka, kb, 32, "bsts-agree");
+	return 0;
+}
+
+/* bake-bpace seed l kca kcb pwd_len hello_len rng */
+static int hl_bake_bpace(size_t np, const size_t* p)
+{
+	size_t l = p[1], kca = p[2], kcb = p[3], pl = p[4], hl = p[5];
+	bign_params* params;
+	octet *pwd, *ha, *hb, *m1, *m2, *m3, *m4, *ka, *kb;
+	bake_settings *sa, *sb;
+	void *sta, *stb;
+	hl_seed(p[0]);
+	params = hl_bign_params(l);
+	HL_T(params != 0, "bignParamsStd");
+	ha = hl ? hl_r(hl) : 0, hb = hl ? hl_r(hl + 1) : 0;
+	sa = hl_settings(kca, kcb, ha, hl, hb, hl ? hl + 1 : 0, p[6]);
+	sb = hl_settings(kca, kcb, ha, hl, hb, hl ? hl + 1 : 0, p[6]);
+	pwd = hl_r(pl);
+	sta = hl_m(bakeBPACE_keep(l)), stb = hl_m(bakeBPACE_keep(l));
+	HL_E(bakeBPACEStart(sta, params, sa, pwd, pl), "bakeBPACEStart-a");
+	HL_E(bakeBPACEStart(stb, params, sb, pwd, pl), "bakeBPACEStart-b");
+	m1 = hl_m(l / 8), m2 = hl_m(5 * l / 8), m3 = hl_m(l / 2 + (kcb ? 8 : 0)), m4 = hl_m(kca ? 8 : 0);
+	HL_E(bakeBPACEStep2(m1, stb), "bakeBPACEStep2");
+	HL_E(bakeBPACEStep3(m2, m1, sta), "bakeBPACEStep3");
+	HL_E(bakeBPACEStep4(m3, m2, stb), "bakeBPACEStep4");
+	HL_E(bakeBPACEStep5(m4, m3, sta), "bakeBPACEStep5");
+	if (kca)
+		HL_E(bakeBPACEStep6(m4, stb), "bakeBPACEStep6");
+	ka = hl_m(32), kb = hl_m(32);
+	HL_E(bakeBPACEStepG(ka, sta), "bakeBPACEStepG-a");
+	HL_E(bakeBPACEStepG(kb, stb), "bakeBPACEStepG-b");
+	HL_EQ(ka, kb, 32, "bpace-agree");
+	return 0;
+}
+
+/*HL_PART5*/
 
 /* ---------------------------------------------------------------- dispatch */
 
@@ -1025,9 +1423,24 @@ static const struct { const char* name; hl_fn fn; size_t np; } hl_tab_[] = {
 	{ "botp-hotp", hl_botp_hotp, 3 },
 	{ "botp-totp", hl_botp_totp, 4 },
 	{ "botp-ocra", hl_botp_ocra, 5 },
-	{ "bels-m", hl_bels_m, 3 },
+	{ "bels-std", hl_bels_std, 2 },
+	{ "bels-val", hl_bels_val, 3 },
+	{ "bels-genm0", hl_bels_genm0, 3 },
+	{ "bels-genmi", hl_bels_genmi, 3 },
+	{ "bels-genmid", hl_bels_genmid, 3 },
 	{ "bels-share", hl_bels_share, 5 },
-/*HL_TAB3*/
+	{ "bign-params", hl_bign_pars, 2 },
+	{ "bign-keys", hl_bign_keys, 4 },
+	{ "bign-sign", hl_bign_sign, 4 },
+	{ "bign-kwrap", hl_bign_kwrap, 5 },
+	{ "bign-id", hl_bign_id, 4 },
+	{ "bign96", hl_bign96, 3 },
+	{ "bake-kdf", hl_bake_kdf, 4 },
+	{ "bake-swu", hl_bake_swu, 2 },
+	{ "bake-bmqv", hl_bake_bmqv, 7 },
+	{ "bake-bsts", hl_bake_bsts, 6 },
+	{ "bake-bpace", hl_bake_bpace, 7 },
+/*HL_TAB5*/
 };
 
 static int c07_hl(int argc, char** argv)
